@@ -10,6 +10,7 @@ func init() {
 			"MO: every map range / maps.Keys / maps.Values / callback-iteration region has only commutative effects; slices built in map order are sorted before any order-sensitive consumer (grouping-key hash, float accumulation, rendered output)",
 			"PV-GO: goroutines write only their own slot; parent reads after Wait",
 			"PV-FRESH: compiled templates are never cached across stages/evaluations; MO: a map loop that acts on elements and can stop early; the distinct rule (labels examined in written order)",
+			"PV-FRESH JSON path stack; the key encoders are a pure function of the label set (no per-process seed)",
 		},
 		NotDecided: []string{"the race detector's dynamic view", "ties in unstable sorts (the property excludes equal timestamps)", "64-bit hash collisions", "map stores inside a region are assumed to hit distinct keys (commutative)"},
 		Rules: func(r *Run) {
